@@ -1715,7 +1715,11 @@ class Comparator(BinaryOperator):
         self._yield_when_false_ = yield_when_false
 
         if self._id_ in sources:
-            yield sources
+            # evaluated already under this binding (one condition object used in several places of a condition): it is
+            # what it was there, true or false.
+            self._is_false_ = not sources[self._id_].value
+            if not self._is_false_ or self._yield_when_false_:
+                yield sources
             return
 
         if self._cache_covers_(sources):
